@@ -364,6 +364,7 @@ func (g *genState) genC02() {
 	// size-field attacks: hand-built skeletons whose size varints take boundary values in every
 	// varint width (also non-canonical widths), including sums that wrap 32 bits
 	g.sizeAttacks([]string{"parse", "typesize", "walk", "open", "bytes", "str", "struct", "ltab", "mtab", "parselist", "parsemsg", "typed"})
+	g.offsetAttacks([]string{"parse", "typesize", "walk", "open", "ltab", "mtab", "parselist", "parsemsg", "typed"})
 	// structure-aware mutants of valid encodings
 	ncorp := 300
 	if g.thor {
@@ -445,6 +446,7 @@ func (g *genState) genC13() {
 		}
 	}
 	g.sizeAttacks([]string{"c13"})
+	g.offsetAttacks([]string{"c13"})
 	n := 20000
 	if g.thor {
 		n = 300000
@@ -517,6 +519,68 @@ func (g *genState) sizeAttacks(ops []string) {
 								in := append(append(append(append(append([]byte{}, pl...), tb...), v2...), v1...), t)
 								g.decodeAll("size-attack-container", ops, in)
 							}
+						}
+					}
+				}
+			}
+		}
+	}
+}
+
+// offsetAttacks: hand-built lists and messages (all four table forms) whose table entries carry end
+// offsets around every length of the encoding: inside the body, the body size, inside the table and
+// the size fields, the total length of the container itself (an entry that would contain the whole
+// container again), one more, and the maxima of the offset width.
+func (g *genState) offsetAttacks(ops []string) {
+	bodies := [][]byte{nil, {2}, {7, 3, 2}, {2, 2, 9, 1, 3, 7, 3}, {0, 0, 80, 2}, {0, 0, 70, 7, 3}}
+	for _, t := range []byte{70, 71, 80, 81} {
+		ow, tw := 2, 0 // offset width, tag width
+		switch t {
+		case 71:
+			ow = 4
+		case 80:
+			tw = 1
+		case 81:
+			ow, tw = 4, 2
+		}
+		for _, body := range bodies {
+			for entries := 1; entries <= 3; entries++ {
+				tsize := entries * (ow + tw)
+				total := len(body) + tsize + 1 + 1 + 1 // one-byte size varints, type byte
+				cands := []int{0, 1, len(body) - 1, len(body), len(body) + 1, len(body) + tsize, total - 2, total - 1, total, total + 1, 0xffff}
+				if ow == 4 {
+					cands = append(cands, 0x10000, 0x7fffffff, 0xffffffff)
+				}
+				// the attacked entry takes every candidate, the others stay inside the body
+				for at := 0; at < entries; at++ {
+					for _, c := range cands {
+						if c < 0 {
+							continue
+						}
+						in := append([]byte{}, body...)
+						for e := 0; e < entries; e++ {
+							off := min(e+1, len(body))
+							if e == at {
+								off = c
+							}
+							switch tw {
+							case 1:
+								in = append(in, byte(e+1))
+							case 2:
+								in = append(in, 0, byte(e+1))
+							}
+							if ow == 2 {
+								in = append(in, byte(off>>8), byte(off))
+							} else {
+								in = append(in, byte(off>>24), byte(off>>16), byte(off>>8), byte(off))
+							}
+						}
+						in = append(in, byte(len(body)), byte(tsize), t)
+						g.decodeAll("offset-attack", ops, in)
+						// and nested: the container as the only element of a list
+						outer := append(append([]byte{}, in...), byte(len(in)>>8), byte(len(in)), byte(len(in)), 2, 70)
+						if len(in) <= 0xfc {
+							g.decodeAll("offset-attack-nested", ops, outer)
 						}
 					}
 				}
